@@ -19,6 +19,9 @@ type tableCase struct {
 	Hashes    []uint64 `json:"hashes"`     // hash returned for each logical row
 	GroupNull bool     `json:"group_null"` // nulls equal each other
 	Layout    int      `json:"layout"`     // 0 identity, 1 reversed positions, 2 sparse positions
+	// Gen: large cases are regenerated: "twice:<distinct>:<multiplier>" = keys 0..distinct-1 inserted twice in a row
+	// (second pass after all growth steps) with hash = key * multiplier
+	Gen string `json:"gen,omitempty"`
 }
 
 type tableComparable struct {
@@ -76,6 +79,21 @@ func layoutPos(layout, n, r int) uint32 {
 
 // modelPartition groups logical rows by key equality, groups in order of first row.
 func modelPartition(keys []int, groupNull bool) [][]int {
+	if len(keys) > 1000 {
+		// large generated cases have no nulls: group by key with a map, groups in order of first row
+		idx := map[int]int{}
+		var groups [][]int
+		for r, k := range keys {
+			gi, ok := idx[k]
+			if !ok {
+				gi = len(groups)
+				idx[k] = gi
+				groups = append(groups, nil)
+			}
+			groups[gi] = append(groups[gi], r)
+		}
+		return groups
+	}
 	var groups [][]int
 	for r, k := range keys {
 		placed := false
@@ -96,6 +114,19 @@ func modelPartition(keys []int, groupNull bool) [][]int {
 }
 
 func runTableCase(c tableCase) *core.Failure {
+	if c.Gen != "" {
+		var distinct int
+		var mult uint64
+		fmt.Sscanf(c.Gen, "twice:%d:%d", &distinct, &mult)
+		c.Keys = make([]int, 0, 2*distinct)
+		c.Hashes = make([]uint64, 0, 2*distinct)
+		for pass := 0; pass < 2; pass++ {
+			for k := 0; k < distinct; k++ {
+				c.Keys = append(c.Keys, k)
+				c.Hashes = append(c.Hashes, uint64(k)*mult)
+			}
+		}
+	}
 	n := len(c.Keys)
 	ix := make([]uint32, n)
 	cmp := tableComparable{key: map[uint32]int{}, hash: map[uint32]uint64{}, groupNull: c.GroupNull, compares: new(int)}
@@ -305,6 +336,21 @@ func tableLayerRun(ctx *core.Ctx, op string) {
 					}
 				}
 			}
+		}
+	}
+}
+
+// largeTableCases: tables that grow beyond 2^16 slots, every key looked up again after the last growth
+func largeTableCases(ctx *core.Ctx, op string) {
+	for _, distinct := range []int{40000, 70000} {
+		for _, mult := range []uint64{0x9E3779B1, 1, 0x10001} {
+			if !ctx.Mine() {
+				continue
+			}
+			c := tableCase{Op: op, GroupNull: false, Gen: fmt.Sprintf("twice:%d:%d", distinct, mult)}
+			ctx.Exec(c, func() *core.Failure { return runTableCase(c) })
+			ctx.Outcome("seam/large-table")
+			ctx.Nontrivial("large/" + c.Gen + op)
 		}
 	}
 }
